@@ -13,3 +13,5 @@ open Neutrino.BM
 #print axioms Neutrino.HL.ancestor_correct
 #print axioms Neutrino.HL.ancestor_live
 #print axioms Neutrino.HL.reset_inv
+#print axioms C01_headerlist_refines
+#print axioms Neutrino.HL.push_preserves_RInv
